@@ -183,7 +183,8 @@ impl<'a> Encoding<'a> for WindowsEncoding {
             // NOTE: From std lib, there's a check that the prefix len == path len, which
             //       would imply having no other
             let needs_sep = (!current_path.is_empty()
-                && !current_path.ends_with(&[SEPARATOR as u8]))
+                && !current_path.ends_with(&[SEPARATOR as u8])
+                && !current_path.ends_with(&[ALT_SEPARATOR as u8]))
                 && !Self::components(current_path).is_only_disk();
 
             if needs_sep {
